@@ -350,6 +350,37 @@ Section Inv.
     unfold step. rewrite Hl. discriminate.
   Qed.
 
+  (** ... after any number of failed attempts and any waiting time: the attempts of
+      the loop are independent (each has a context of its own), so an outage of any
+      length does not disable the reconnection *)
+  Definition waiting_label (k : nat) (l : label) : Prop := l = LReconnectFail k \/ exists j, l = LTick j.
+
+  Theorem reconnect_done_after_failed_attempts ls : forall s s' k,
+    reachable init_state s -> status s k = false ->
+    (forall l, In l ls -> waiting_label k l) ->
+    exec nconn ids s ls = Some s' ->
+    status s' k = false /\ reachable init_state s' /\ step s' (LReconnectDone k) <> None.
+  Proof.
+    induction ls as [|l t IH]; cbn [exec]; intros s s' k Hr Hst Hall.
+    - intros [= <-]. repeat split; auto. exact (reconnect_can_finish _ _ Hr Hst).
+    - destruct (step s l) as [s1|] eqn:E; [|discriminate]. intros H.
+      assert (Hr1 : reachable init_state s1) by (eapply reach_step; eassumption).
+      assert (Hst1 : status s1 k = false).
+      { destruct (Hall l (or_introl eq_refl)) as [->|[j ->]]; unfold step in E.
+        - destruct (loops s k); [discriminate|]. injection E as <-. exact Hst.
+        - injection E as <-. exact Hst. }
+      exact (IH _ _ _ Hr1 Hst1 (fun l' Hl' => Hall l' (or_intror Hl')) H).
+  Qed.
+
+  (** failed attempts are always possible while the loop runs (the model does not
+      force the server to be reachable) *)
+  Theorem reconnect_fail_enabled s k :
+    reachable init_state s -> status s k = false -> step s (LReconnectFail k) = Some s.
+  Proof.
+    intros Hr Hst. destruct (single_reconnect s k Hr) as [_ [_ Hl]]. specialize (Hl Hst).
+    unfold step. rewrite Hl. reflexivity.
+  Qed.
+
   (** a new call over an established connection completes with its answer: the
       round-robin choice [next s] is Connected, the server receives the query and
       answers on any healthy connection [kr] whose reader is idle *)
